@@ -1,17 +1,526 @@
 package vsync
 
-// Scheduler stub: replaced by the cooperative scheduler (see sched_coop.go).
+// Cooperative scheduler for controlled concurrency exploration.
+//
+// Threads are real goroutines; exactly one of them (or the controller) runs at
+// a time.  Every shim operation (Pool.Get/Put, Mutex and RWMutex operations)
+// and every explicit Yield is a scheduling point: the thread publishes its
+// pending operation, hands control to the controller and waits for its turn.
+// The controller computes the enabled set from the model state of the
+// primitives, asks the harness which enabled thread runs next (and, for a
+// Pool.Get, which pooled object it receives), applies the model effect and
+// resumes that thread, which then performs the real primitive operation
+// (never blocking, because the model says it cannot).
+//
+// The hand-off is a spin on plain words inside //go:norace functions with
+// runtime.Gosched() in the loop: the race detector does not see these
+// accesses, so the scheduler adds no happens-before edge, and a serialised
+// execution is still judged by the edges of the library's own
+// synchronisation (real mutex operations, Put(x)->Get(x) published through a
+// per-slot atomic, goroutine start and WaitGroup end).  All scheduler
+// bookkeeping lives in fixed arrays touched only from norace functions.
 
-type scheduler struct{}
+import (
+	"runtime"
+	"sync"
+)
 
-func sched() *scheduler { return nil }
+const (
+	opNone = iota
+	opStart
+	opYield
+	opPoolGet
+	opPoolPut
+	opMutexLock
+	opMutexUnlock
+	opRWLockAnnounce
+	opRWLockAcquire
+	opRWUnlock
+	opRWRLock
+	opRWRUnlock
+)
 
-func (s *scheduler) poolGet(p *Pool) interface{}  { return nil }
-func (s *scheduler) poolPut(p *Pool, x interface{}) {}
-func (s *scheduler) mutexLock(m *Mutex)            {}
-func (s *scheduler) mutexUnlock(m *Mutex)          {}
-func (s *scheduler) mutexTryLock(m *Mutex) bool    { return false }
-func (s *scheduler) rwLock(m *RWMutex)             {}
-func (s *scheduler) rwUnlock(m *RWMutex)           {}
-func (s *scheduler) rwRLock(m *RWMutex)            {}
-func (s *scheduler) rwRUnlock(m *RWMutex)          {}
+var opNames = [...]string{"none", "start", "yield", "Pool.Get", "Pool.Put", "Mutex.Lock", "Mutex.Unlock", "RWMutex.Lock(announce)", "RWMutex.Lock(acquire)", "RWMutex.Unlock", "RWMutex.RLock", "RWMutex.RUnlock"}
+
+const maxThreads = 8
+const maxTracked = 16
+
+type schedAbort struct{}
+
+func (schedAbort) Error() string {
+	return "vsync: execution aborted by the scheduler (deadlock unwinding)"
+}
+
+type thread struct {
+	op     int
+	pool   *Pool
+	mu     *Mutex
+	rw     *RWMutex
+	answer int // Pool.Get: which pooled object (rank by recency), == count means New
+	turn   uint32
+	done   bool
+	active bool
+	panicV interface{}
+	stack  []byte
+}
+
+// Decision is asked of the harness at every scheduling decision.
+// kind "sched": options are enabled threads (ids in enabled[:n]); curEnabled
+// says whether option 0 is the thread that was running (so any other option
+// is a preemption).  kind "pool": n options, 0 = most recently put.
+type Decision func(kind string, n int, curEnabled bool, detail string) int
+
+type scheduler struct {
+	threads [maxThreads]thread
+	n       int
+	cur     int
+	ctl     uint32
+	abort   uint32
+	decide  Decision
+	wg      sync.WaitGroup
+
+	mutexes  [maxTracked]*Mutex
+	nMutex   int
+	rwmus    [maxTracked]*RWMutex
+	nRW      int
+	Deadlock bool
+	Blocked  string
+	Points   int
+	Switches int
+}
+
+var active *scheduler
+
+//go:norace
+func sched() *scheduler { return active }
+
+// Result of a controlled run.
+type RunResult struct {
+	Deadlock bool
+	Blocked  string // pending operations of the blocked threads
+	Panics   [maxThreads]interface{}
+	Stacks   [maxThreads][]byte
+	Points   int
+	Switches int
+}
+
+// Run executes the thread bodies under the scheduler.  It must be called
+// from a goroutine that runs no library code concurrently.
+func Run(bodies []func(), decide Decision) RunResult {
+	if len(bodies) > maxThreads {
+		panic("vsync: too many threads")
+	}
+	s := &scheduler{n: len(bodies), cur: -1, decide: decide}
+	for i := range bodies {
+		s.threads[i].op = opStart
+		s.threads[i].active = true
+	}
+	setActive(s)
+	for i, f := range bodies {
+		s.wg.Add(1)
+		go s.threadMain(i, f)
+	}
+	s.loop()
+	s.wg.Wait()
+	setActive(nil)
+	s.forceRelease()
+	var r RunResult
+	r.Deadlock, r.Blocked, r.Points, r.Switches = s.Deadlock, s.Blocked, s.Points, s.Switches
+	for i := 0; i < s.n; i++ {
+		r.Panics[i] = s.threads[i].panicV
+		r.Stacks[i] = s.threads[i].stack
+	}
+	return r
+}
+
+//go:norace
+func setActive(s *scheduler) { active = s }
+
+func (s *scheduler) threadMain(id int, f func()) {
+	defer s.wg.Done()
+	defer func() {
+		r := recover()
+		if r != nil {
+			if _, ok := r.(schedAbort); !ok {
+				buf := make([]byte, 16384)
+				buf = buf[:runtime.Stack(buf, false)]
+				s.recordPanic(id, r, buf)
+			}
+		}
+		s.finish(id)
+	}()
+	s.waitTurn(id)
+	f()
+}
+
+//go:norace
+func (s *scheduler) recordPanic(id int, r interface{}, st []byte) {
+	s.threads[id].panicV = r
+	s.threads[id].stack = st
+}
+
+//go:norace
+func (s *scheduler) finish(id int) {
+	s.threads[id].done = true
+	s.threads[id].op = opNone
+	s.ctl = 1
+}
+
+//go:norace
+func (s *scheduler) waitTurn(id int) {
+	t := &s.threads[id]
+	for t.turn == 0 {
+		if s.abort != 0 {
+			panic(schedAbort{})
+		}
+		runtime.Gosched()
+	}
+	t.turn = 0
+}
+
+// point publishes the pending operation of the running thread and waits
+// until the controller resumes it.  It returns false when the execution is
+// being aborted (the caller then skips the real operation).
+//
+//go:norace
+func (s *scheduler) point(op int, p *Pool, m *Mutex, rw *RWMutex) bool {
+	if s.abort != 0 || s.cur < 0 {
+		return false
+	}
+	id := s.cur
+	t := &s.threads[id]
+	t.op, t.pool, t.mu, t.rw = op, p, m, rw
+	s.ctl = 1
+	s.waitTurn(id)
+	return true
+}
+
+//go:norace
+func (s *scheduler) enabled(t *thread) bool {
+	if t.done || !t.active {
+		return false
+	}
+	switch t.op {
+	case opMutexLock:
+		return !t.mu.locked
+	case opRWLockAcquire:
+		return !t.rw.writer && t.rw.readers == 0
+	case opRWRLock:
+		return !t.rw.writer && t.rw.pendingW == 0
+	}
+	return true
+}
+
+// apply performs the model effect of the operation the thread is about to execute.
+//
+//go:norace
+func (s *scheduler) apply(t *thread) {
+	switch t.op {
+	case opMutexLock:
+		t.mu.locked = true
+		s.trackMutex(t.mu)
+	case opMutexUnlock:
+		t.mu.locked = false
+	case opRWLockAnnounce:
+		t.rw.pendingW++
+		s.trackRW(t.rw)
+	case opRWLockAcquire:
+		t.rw.pendingW--
+		t.rw.writer = true
+	case opRWUnlock:
+		t.rw.writer = false
+	case opRWRLock:
+		t.rw.readers++
+		s.trackRW(t.rw)
+	case opRWRUnlock:
+		t.rw.readers--
+	}
+}
+
+//go:norace
+func (s *scheduler) trackMutex(m *Mutex) {
+	for i := 0; i < s.nMutex; i++ {
+		if s.mutexes[i] == m {
+			return
+		}
+	}
+	if s.nMutex < maxTracked {
+		s.mutexes[s.nMutex] = m
+		s.nMutex++
+	}
+}
+
+//go:norace
+func (s *scheduler) trackRW(m *RWMutex) {
+	for i := 0; i < s.nRW; i++ {
+		if s.rwmus[i] == m {
+			return
+		}
+	}
+	if s.nRW < maxTracked {
+		s.rwmus[s.nRW] = m
+		s.nRW++
+	}
+}
+
+// forceRelease puts primitives that an aborted execution left held back to
+// the unlocked state (model and real), so that the process stays usable.
+func (s *scheduler) forceRelease() {
+	for i := 0; i < s.nMutex; i++ {
+		m := s.mutexes[i]
+		if m.locked {
+			m.locked = false
+			m.real.TryLock()
+			m.real.Unlock()
+		}
+	}
+	for i := 0; i < s.nRW; i++ {
+		m := s.rwmus[i]
+		if m.writer || m.readers != 0 || m.pendingW != 0 {
+			*m = RWMutex{}
+		}
+	}
+}
+
+// loop is the controller.
+//
+//go:norace
+func (s *scheduler) loop() {
+	s.ctl = 1
+	for {
+		for s.ctl == 0 {
+			runtime.Gosched()
+		}
+		s.ctl = 0
+		var en [maxThreads]int
+		n := 0
+		alive := 0
+		curEnabled := false
+		if s.cur >= 0 && s.enabled(&s.threads[s.cur]) {
+			en[0] = s.cur
+			n = 1
+			curEnabled = true
+		}
+		for i := 0; i < s.n; i++ {
+			t := &s.threads[i]
+			if !t.done {
+				alive++
+			}
+			if i != s.cur && s.enabled(t) {
+				en[n] = i
+				n++
+			}
+		}
+		if alive == 0 {
+			s.cur = -1
+			return
+		}
+		if n == 0 {
+			s.Deadlock = true
+			s.Blocked = s.describeBlocked()
+			s.cur = -1
+			s.abort = 1
+			return // threads unwind through schedAbort; Run waits for them
+		}
+		pick := 0
+		if n > 1 {
+			pick = s.callDecide("sched", n, curEnabled, "")
+		}
+		id := en[pick]
+		if s.cur >= 0 && id != s.cur {
+			s.Switches++
+		}
+		t := &s.threads[id]
+		if t.op == opPoolGet {
+			k := t.pool.count()
+			t.answer = 0
+			if k > 0 {
+				t.answer = s.callDecide("pool", k+1, false, "")
+			} else {
+				t.answer = 0
+			}
+		}
+		s.apply(t)
+		s.Points++
+		s.cur = id
+		t.turn = 1
+	}
+}
+
+// callDecide is a separate (instrumented) function: the harness callback
+// runs on the controller goroutine only.
+func (s *scheduler) callDecide(kind string, n int, curEnabled bool, detail string) int {
+	k := s.decide(kind, n, curEnabled, detail)
+	if k < 0 || k >= n {
+		panic("vsync: decision out of range")
+	}
+	return k
+}
+
+//go:norace
+func (s *scheduler) describeBlocked() string {
+	out := ""
+	for i := 0; i < s.n; i++ {
+		t := &s.threads[i]
+		if !t.done {
+			out += "thread " + string(rune('0'+i)) + " blocked at " + opNames[t.op] + "; "
+		}
+	}
+	return out
+}
+
+// ---- operations called by the shim on the running thread ----
+
+//go:norace
+func (p *Pool) count() int {
+	k := 0
+	for i := 0; i < maxPoolItems; i++ {
+		if p.items[i] != nil {
+			k++
+		}
+	}
+	return k
+}
+
+func (s *scheduler) poolGet(p *Pool) interface{} {
+	if !s.point(opPoolGet, p, nil, nil) {
+		if p.New != nil {
+			return p.New()
+		}
+		return nil
+	}
+	x, slot := s.takeFromPool(p)
+	if x == nil {
+		if p.New != nil {
+			return p.New()
+		}
+		return nil
+	}
+	p.acquireEdge(slot)
+	return x
+}
+
+// takeFromPool removes the object selected by the controller's answer
+// (rank by recency among the pooled objects).
+//
+//go:norace
+func (s *scheduler) takeFromPool(p *Pool) (interface{}, int) {
+	t := &s.threads[s.cur]
+	k := p.count()
+	p.gets++
+	if k == 0 || t.answer >= k {
+		p.news++
+		return nil, -1
+	}
+	// find the slot with the (answer)-th largest sequence number
+	var used [maxPoolItems]bool
+	slot := -1
+	for r := 0; r <= t.answer; r++ {
+		best := -1
+		for i := 0; i < maxPoolItems; i++ {
+			if p.items[i] != nil && !used[i] && (best < 0 || p.seq[i] > p.seq[best]) {
+				best = i
+			}
+		}
+		used[best] = true
+		slot = best
+	}
+	x := p.items[slot]
+	p.items[slot] = nil
+	p.n--
+	return x, slot
+}
+
+func (s *scheduler) poolPut(p *Pool, x interface{}) {
+	if !s.point(opPoolPut, p, nil, nil) {
+		return
+	}
+	slot := s.putIntoPool(p, x)
+	if slot >= 0 {
+		p.releaseEdge(slot)
+	}
+}
+
+//go:norace
+func (s *scheduler) putIntoPool(p *Pool, x interface{}) int {
+	for i := 0; i < maxPoolItems; i++ {
+		if p.items[i] == nil {
+			p.items[i] = x
+			p.seqCounter++
+			p.seq[i] = p.seqCounter
+			p.n++
+			return i
+		}
+	}
+	return -1
+}
+
+func (s *scheduler) mutexLock(m *Mutex) {
+	if !s.point(opMutexLock, nil, m, nil) {
+		return
+	}
+	m.real.Lock()
+}
+
+func (s *scheduler) mutexUnlock(m *Mutex) {
+	if !s.point(opMutexUnlock, nil, m, nil) {
+		return
+	}
+	m.real.Unlock()
+}
+
+func (s *scheduler) mutexTryLock(m *Mutex) bool {
+	if !s.point(opYield, nil, nil, nil) {
+		return false
+	}
+	return s.tryLockModel(m) && m.real.TryLock()
+}
+
+//go:norace
+func (s *scheduler) tryLockModel(m *Mutex) bool {
+	if m.locked {
+		return false
+	}
+	m.locked = true
+	s.trackMutex(m)
+	return true
+}
+
+func (s *scheduler) rwLock(m *RWMutex) {
+	if !s.point(opRWLockAnnounce, nil, nil, m) {
+		return
+	}
+	if !s.point(opRWLockAcquire, nil, nil, m) {
+		return
+	}
+	m.real.Lock()
+}
+
+func (s *scheduler) rwUnlock(m *RWMutex) {
+	if !s.point(opRWUnlock, nil, nil, m) {
+		return
+	}
+	m.real.Unlock()
+}
+
+func (s *scheduler) rwRLock(m *RWMutex) {
+	if !s.point(opRWRLock, nil, nil, m) {
+		return
+	}
+	m.real.RLock()
+}
+
+func (s *scheduler) rwRUnlock(m *RWMutex) {
+	if !s.point(opRWRUnlock, nil, nil, m) {
+		return
+	}
+	m.real.RUnlock()
+}
+
+// Yield is a scheduling point the harness inserts where real goroutines are
+// descheduled (I/O).  Outside a controlled run it does nothing.
+func Yield() {
+	if s := sched(); s != nil {
+		s.point(opYield, nil, nil, nil)
+	}
+}
